@@ -308,8 +308,8 @@ fn random_case(r: &mut Rng, id: String, dirty: bool) -> Case {
         match r.below(24) {
             0 | 1 => if !intx[cu] { ops.push(cmd_op(c, &[b"MULTI"])); intx[cu] = true; },
             2 | 3 | 4 => if intx[cu] { ops.push(cmd_op(c, &[if r.chance(1, 8) { b"DISCARD" } else { b"EXEC" }])); intx[cu] = false; },
-            // watched keys: written by the string, list/set/hash and stream families only (Server.v has no
-            // marks for sorted sets and scripts yet: C08's catalogue)
+            // watched keys: written by the string and list/set/hash families only (Server.v has no marks for
+            // sorted sets, scripts and PEXPIREAT; the group-command marks follow cc8be72 on main later)
             5 => if !intx[cu] && r.chance(1, 2) { ops.push(cmd_op(c, &[b"WATCH", *r.pick(&[&b"kb"[..], b"k3", b"s2"])])); },
             6 => if r.chance(1, 2) {
                 let n = *r.pick(&[&b"0"[..], b"0", b"1", b"1", b"2", b"15", b"16"]);
